@@ -407,23 +407,33 @@ func (e *symbolsEngine) Exec(op string) string {
 		}
 		return fmt.Sprintf("%s reported=[%s]", r, strings.Join(log.items, " "))
 	case "race":
-		// concurrent imports and lookups on a fresh table (meaningful under the race detector)
-		tab := &linker.Symbols{}
-		var wg sync.WaitGroup
+		// concurrent imports (several importers) and lookups on fresh tables; the race detector sees
+		// unsynchronised accesses, and independently of it every import that returned nil must be
+		// visible to Lookup afterwards (a lost import is an answer, not only a race report)
 		ids := append([]int{}, e.order...)
-		wg.Add(1)
-		go func() {
-			defer wg.Done()
-			for _, id := range ids {
-				h := reporter.NewHandler(reporter.NewReporter(func(err reporter.ErrorWithPos) error { return nil }, nil))
-				_ = tab.Import(e.defs[id].fd, h)
+		lost := ""
+		rounds := 150
+		for round := 0; round < rounds && lost == ""; round++ {
+			tab := &linker.Symbols{}
+			var wg sync.WaitGroup
+			okImp := make([]bool, len(ids))
+			start := make(chan struct{})
+			for gi := range ids {
+				wg.Add(1)
+				go func(gi int) {
+					defer wg.Done()
+					<-start
+					h := reporter.NewHandler(reporter.NewReporter(func(err reporter.ErrorWithPos) error { return err }, nil))
+					if err := tab.Import(e.defs[ids[gi]].fd, h); err == nil {
+						okImp[gi] = true
+					}
+				}(gi)
 			}
-		}()
-		for g := 0; g < 3; g++ {
-			wg.Add(1)
-			go func() {
-				defer wg.Done()
-				for rep := 0; rep < 20; rep++ {
+			for g := 0; g < 2; g++ {
+				wg.Add(1)
+				go func() {
+					defer wg.Done()
+					<-start
 					for _, id := range ids {
 						for _, sy := range e.defs[id].syms {
 							_ = tab.Lookup(protoreflect.FullName(sy.name))
@@ -432,10 +442,28 @@ func (e *symbolsEngine) Exec(op string) string {
 							}
 						}
 					}
+				}()
+			}
+			close(start)
+			wg.Wait()
+			for gi, id := range ids {
+				if !okImp[gi] {
+					continue
 				}
-			}()
+				for _, sy := range e.defs[id].syms {
+					if tab.Lookup(protoreflect.FullName(sy.name)) == nil {
+						lost = fmt.Sprintf("lost f%d %s", id, sy.name)
+						break
+					}
+				}
+				if lost != "" {
+					break
+				}
+			}
 		}
-		wg.Wait()
+		if lost != "" {
+			return lost
+		}
 		return "ok"
 	case "dump":
 		var names []string
